@@ -540,6 +540,8 @@ def run(ctx):
     init2 = St({stk2: CLEAN}, {})
     body = list(scanner.node.body)
     start = 0
+    # ... or two (annotated) assignments `scanned: List[str] = []` / `stack: List[str] = []`, in either order
+    initialised = set()
     for i, s in enumerate(body):
         if isinstance(s, ast.Expr) and isinstance(s.value, ast.Constant):
             start = i + 1
@@ -550,8 +552,18 @@ def run(ctx):
             and norm(s.value).replace("(", "").replace(")", "") == "[], []"
         ):
             start = i + 1
+            initialised = {out2, stk2}
+            break
+        if isinstance(s, (ast.Assign, ast.AnnAssign)) and s.value is not None:
+            t = s.targets[0] if isinstance(s, ast.Assign) else s.target
+            if isinstance(t, ast.Name) and t.id in (out2, stk2) and t.id not in initialised and isinstance(s.value, ast.List) and not s.value.elts:
+                initialised.add(t.id)
+                start = i + 1
+                if initialised == {out2, stk2}:
+                    break
+                continue
         break
-    ctx.need(start > 0 and start <= len(body), "cst_scanner no longer starts with `scanned, stack = [], []`")
+    ctx.need(start > 0 and start <= len(body) and initialised == {out2, stk2}, "cst_scanner no longer starts by binding its output list and its stack to fresh empty lists")
     eng2.fn = ast.FunctionDef(name="x", args=scanner.node.args, body=body[start:], decorator_list=[])
     ex2 = eng2.analyse(init2, sources=(scanner.params[0],))
     for e in ex2:
@@ -748,7 +760,16 @@ def _lines(ctx):
         )
         state_init = [ast.Assign(targets=other[0].targets, value=lit, lineno=other[0].lineno)]
     d = {k.value: norm(x) for k, x in zip(state_init[0].value.keys, state_init[0].value.values) if isinstance(k, ast.Constant)}
-    ok = d.get("acc") == "1" and d.get("parsed") == "[]"
+    # the first line is number 1: the literal, or a parameter whose default is the literal 1
+    def default_one(fn, name):
+        a = fn.node.args
+        pos = a.posonlyargs + a.args
+        for prm, dflt in list(zip(pos[len(pos) - len(a.defaults):], a.defaults)) + [(k, v) for k, v in zip(a.kwonlyargs, a.kw_defaults) if v is not None]:
+            if prm.arg == name:
+                return isinstance(dflt, ast.Constant) and dflt.value == 1 and not isinstance(dflt.value, bool)
+        return False
+
+    ok = (d.get("acc") == "1" or default_one(parser, d.get("acc") or "")) and d.get("parsed") == "[]"
     ctx.ob("C09.lines", parser, "state = {acc: 1, parsed: []}", ok, "" if ok else "line numbering must start at 1 with an empty node list: {}".format(d), line=state_init[0].lineno)
     maps = [
         n
@@ -792,6 +813,15 @@ def _lines(ctx):
     ctx.ob("C09.lines", parser, "return tuple(state['parsed'])", ok, "" if ok else "cst_parser returns {}".format([norm(r.value) for r in rets]), line=parser.node.lineno)
     # cst_parse is the plain composition
     pb = [norm(s) for s in parse.node.body if not (isinstance(s, ast.Expr) and isinstance(s.value, ast.Constant))]
+    # extra keyword arguments that merely forward one of cst_parse's own defaulted parameters under the same name are
+    # part of the plain composition
+    import re as _re
+
+    defaulted = {a_.arg for a_ in parse.node.args.args[len(parse.node.args.args) - len(parse.node.args.defaults):]} | {
+        a_.arg for a_, v_ in zip(parse.node.args.kwonlyargs, parse.node.args.kw_defaults) if v_ is not None
+    }
+    for nm in defaulted:
+        pb = [_re.sub(r",\s*{0}={0}(?=[,)])".format(_re.escape(nm)), "", line) for line in pb]
     cn = lambda lines: ctx._canon(parse.mod.name, parse.short, " ; ".join(lines))
     comp = cn(pb) in (
         cn(["scanned = cst_scanner(source)", "parsed = cst_parser(scanned)", "return parsed"]),
